@@ -124,6 +124,12 @@ func genImportFile(t *tape.Tape, cls string, pkg string) ImportFile {
 			role := ""
 			if t.Bool(1, 2) && !isIface {
 				role = "static-call"
+				if t.Bool(1, 2) {
+					// a statically imported CONSTANT whose only use is a whole argument or a whole
+					// statement expression (getBytes(UTF_8), sleep(5, SECONDS), throw FAILED)
+					m = "MAX_" + strings.ToUpper(name)
+					role = []string{"static-const-arg", "static-const-ctor-arg", "static-const-throw"}[t.Pick(3)]
+				}
 			}
 			imps = append(imps, imp{q: "com.lib.Statics." + m, simple: m, stat: true, role: role})
 		default:
@@ -386,6 +392,17 @@ func genImportFile(t *tape.Tape, cls string, pkg string) ImportFile {
 		}
 		for _, s := range by("static-call") {
 			add(fmt.Sprintf("        %s(1);", s))
+		}
+		for _, s := range by("static-const-arg") {
+			add(fmt.Sprintf("        \"text\".getBytes(%s);", s))
+		}
+		for i, s := range by("static-const-ctor-arg") {
+			add(fmt.Sprintf("        Object viaCtor%d = new String(new byte[0], %s);", i, s))
+		}
+		for _, s := range by("static-const-throw") {
+			add("        if (this == null) {")
+			add(fmt.Sprintf("            throw %s;", s))
+			add("        }")
 		}
 		for _, c := range by("catch") {
 			add("        try {")
